@@ -36,20 +36,20 @@ type ethNode struct {
 }
 
 type EthGen struct {
-	w       *World
-	r       *Rng
-	stats   map[string]int
-	name    string
-	nodes   map[common.Hash]*ethNode // accepted headers (generator's tree)
-	order   []*ethNode
-	latest  *ethNode
-	base    uint64
-	hashLbl map[common.Hash]string
-	nLbl    int
-	now     uint64
-	period  uint64
-	pruning bool
-	maxH    uint64
+	w         *World
+	r         *Rng
+	stats     map[string]int
+	name      string
+	nodes     map[common.Hash]*ethNode // accepted headers (generator's tree)
+	order     []*ethNode
+	latest    *ethNode
+	base      uint64
+	hashLbl   map[common.Hash]string
+	nLbl      int
+	now       uint64
+	period    uint64
+	pruning   bool
+	maxH      uint64
 	sameRoots bool
 	viaTx     bool // deliver updates as signed MsgUpdateClient transactions (determinism stream)
 	recorded  []*ethtypes.EthHeader
@@ -663,7 +663,7 @@ func (g *EthGen) Step(i int) {
 			g.submit(c, g.build(s), sealOk, -1, label+" "+where)
 		}
 		// boundary: exactly 15 s ahead of chain time is still accepted
-		if g.r.Chance(8) && g.now+15 > p.Time {
+		if g.r.Chance(20) && g.now+15 > p.Time {
 			t := g.now + 15
 			vs.timeAbs = &t
 		}
